@@ -59,6 +59,10 @@ fn clean_command(path: &str) -> Result<()> {
 
     for path in paths {
         let path = path?;
+        // only files are bytecode artifacts: never try to unlink a directory that is named `*.mmm`
+        if path.file_type()?.is_dir() {
+            continue;
+        }
         if Path::new(&path.file_name())
             .extension()
             .is_some_and(|ext| ext == "mmm")
